@@ -65,7 +65,7 @@ class EngineLineCropper(object):
         else:
             try:
                 coords[-1, 0] += 0.1 # shift the last point slightly right, prevents interpolation function from failing during computation of normals
-                line_interpf = interpolate.interp1d(coords[:,0], coords[:,1], kind='cubic',)
+                line_interpf = interpolate.interp1d(coords[:,0], coords[:,1], kind='cubic', fill_value='extrapolate')
             except: # fall back to linear interpolation in case y_values fails (usually with very short baselines)
                 line_interpf = np.poly1d(np.polyfit(coords[:,0], coords[:,1], 1))
         left = coords[:, 0].min()
